@@ -255,6 +255,10 @@ class LSMTree(Entity):
         # mapped to the memtable holding it (None while still inside wal.append)
         self._wal_pending: dict[int, Memtable | None] = {}
 
+        # SSTables already written for a frozen memtable (keyed by id) that wait
+        # for an older memtable's flush before they can be installed in L0
+        self._written_sstables: dict[int, SSTable] = {}
+
         # SSTable levels: levels[0] is L0 (most recent)
         self._levels: list[list[SSTable]] = [[] for _ in range(max_levels)]
 
@@ -540,18 +544,21 @@ class LSMTree(Entity):
         pages = max(1, sstable.key_count // 16)
         yield pages * self._sstable_write_latency
 
-        # Add to L0
-        self._levels[0].append(sstable)
-        self._total_memtable_flushes += 1
-
-        # Remove from immutable list
-        self._immutable_memtables.remove(old_memtable)
+        # SSTables must reach L0 in memtable-age order (newest last): a bigger,
+        # older memtable takes longer to write than a smaller, newer one. Install
+        # every frozen memtable whose SSTable is written, oldest first, and stop
+        # at the first one still being written; its flush installs the rest.
+        self._written_sstables[id(old_memtable)] = sstable
+        while self._immutable_memtables and id(self._immutable_memtables[0]) in self._written_sstables:
+            flushed = self._immutable_memtables.pop(0)
+            self._levels[0].append(self._written_sstables.pop(id(flushed)))
+            self._total_memtable_flushes += 1
+            for seq in [q for q, m in self._wal_pending.items() if m is flushed]:
+                del self._wal_pending[seq]
 
         # Truncate WAL, but only below the oldest entry whose write is not in an
         # SSTable yet (entries of the new memtable, or still inside wal.append)
         if self._wal is not None:
-            for seq in [q for q, m in self._wal_pending.items() if m is old_memtable]:
-                del self._wal_pending[seq]
             bound = min(self._wal_pending, default=self._wal._next_sequence)
             self._wal.truncate(bound - 1)
 
@@ -719,6 +726,7 @@ class LSMTree(Entity):
             self._memtable.set_clock(self._clock)
         self._immutable_memtables.clear()
         self._wal_pending.clear()
+        self._written_sstables.clear()
         # A compaction interrupted by the crash is gone with its process
         self._compaction_in_progress = False
 
@@ -747,6 +755,8 @@ class LSMTree(Entity):
             entries = self._wal.recover()
             for entry in entries:
                 self._memtable.put_sync(entry.key, entry.value)
+                # the replayed write lives only in this memtable until it is flushed
+                self._wal_pending[entry.sequence_number] = self._memtable
             wal_recovered = len(entries)
 
         sstable_keys = sum(s.key_count for level in self._levels for s in level)
